@@ -27,8 +27,8 @@ func init() {
 
 func run(c *vf.Ctx) {
 	c.Rule = "convert: one case = one record stream (families of key lists x every value assignment) run through every ordered pair/triple of formats whose domains contain it; distinct = distinct stream with at least one pair inside the domain intersection. " +
-		"nest: one case = one JSON document (every value of depth<=3 over keys {a,b,1,2}, 6 leaf kinds, arrays<=2, <=5 leaves; plus the key-spelling dimension: every value of depth<=3 over 14 lexical spellings of each of 1,2(,3) and the never-an-index integers 0,-1,3, maps<=3, <=3 leaves; plus 6 string leaves resembling the {} / [] sentinels) x 3 flatten separators x 4 tabular formats x {implicit pair, flatten/unflatten verbs, their -f forms with every field listed}. " +
-		"flags: one case = one spelling (flag of cli.FLAG_TABLE / -i,-o,--io form / separator alias x flag / .mlrrc text) compared with its name- or doc-derived expansion on every corpus input."
+		"nest: one case = one JSON document (every value of depth<=3 over keys {a,b,1,2}, 6 leaf kinds, arrays<=2, <=5 leaves; plus the key-spelling dimension: every value of depth<=3 over 14 lexical spellings of each of 1,2(,3) and the never-an-index integers 0,-1,3, maps<=3, <=3 leaves; plus 6 string leaves resembling the {} / [] sentinels; plus the collection-size dimension (size.go): one collection of EVERY size n = 0..104 (cli; 0..260 lib; thorough 0..260 cli, 0..520 and 999..1001, 1023..1025 lib) x 14 shapes (array / letter-keyed map / map keyed 1..n / four near misses of 1..n / record width, at four positions) x 3 element kinds with distinct leaf texts) x 3 flatten separators x 4 tabular formats x {implicit pair, flatten/unflatten verbs, their -f forms with every field listed}. " +
+		"flags: one case = one spelling (flag of cli.FLAG_TABLE / -i,-o,--io form / separator alias x flag / .mlrrc text) compared with its name- or doc-derived expansion on every corpus input; plus the option-value dimension (optval.go): every -- spelling of every one-argument flag x {two tokens, glued with =} x every string of length 1..2 (thorough 1..3) over the symbols = space , ; : | - backslash t and every alias name (law: both forms give the same outcome; semantic: a literal value used as DKVP FS/PS/RS means its bytes)."
 	c.Assume("data outside the intersection of the formats' representable domains is excluded (the property says 'representable in both'); the predicates are in formats.go and both sides are counted under counters domain-in/domain-out/pair-out/triple-out")
 	c.Assume("value text, key names and order are compared; the JSON type (quoted or not) of a scalar re-read from text is C06's subject and is not asserted")
 	c.Assume("a step from a non-nesting into a nesting format auto-unflattens keys containing the flatten separator (documented): such keys are outside the domain of that path")
@@ -38,6 +38,7 @@ func run(c *vf.Ctx) {
 	c.Assume("vacuity guard of the flag corpus: --ijson/--ijsonl select the same reader by design; --odcf/--orecutils coincide on single-line scalar values, so they are not told apart behind line-oriented readers; --igen ignores its input and is left out of the guard")
 	c.Assume("when both a spelling and its expansion fail (non-zero exit) only the failure is compared, not the message: which data error surfaces first is timing-dependent (C17's subject)")
 	c.Assume("flags that select neither a format nor a separator (comments, compression, colours, profiling, most of the miscellaneous section; listed in flag_spellings_without_own_case) are walked and counted but have no law of their own here; their alternate names are still compared with the primary name")
+	c.Assume("option values: the empty value is left out (`--flag=` is not of the documented form `--foo=bar`); a value spelled like a bundle of one-letter flags (-tt) is left out because the documented -xyz expansion applies to it in the two-token form; flags that run commands, read or write named files, take several arguments or need a .mlrrc section are not run in the glued form (listed in flag_notes); IRS is left out of the literal-value semantics (multi-character IRS is a reported defect)")
 	c.Assume("-i/-o/--io with a name outside the documented format-name list (jsonl, md, tsvlite, asv, usv, ...): a loud rejection is counted, not asserted; an accepted name must be equivalent")
 
 	only := os.Getenv("C02_ONLY") // debugging aid: run one part
@@ -57,6 +58,14 @@ func run(c *vf.Ctx) {
 		nd += int64(vf.SetSize(res2, "docs"))
 		nd += c.Counters["lib-class:docs-in-guard"]
 		wall["nest"] = time.Since(t0).Seconds()
+		// every threshold bucket of the size dimension must have been exercised in both layers
+		for _, layer := range []string{"lib", "cli"} {
+			for _, n := range []int{0, 1, 9, 10, 12, 13, 32, 33, 64, 65, 99, 100, 101} {
+				if c.Counters[layer+"-size-n:"+sizeBucket(n)] == 0 {
+					c.Broken("vacuity: %s layer never ran a collection of size %d", layer, n)
+				}
+			}
+		}
 		// a symbol of the key-spelling / sentinel-lookalike alphabets never exercised inside the guard is a harness bug
 		for _, layer := range []string{"lib", "cli"} {
 			for f := 1; f < len(lookFeatures); f++ {
@@ -74,6 +83,11 @@ func run(c *vf.Ctx) {
 	if only == "" || only == "flags" {
 		t0 := time.Now()
 		res3 := c.RunPool(vf.PoolSpec{Worker: "flags", Shards: 48})
+		for _, sym := range optSymbols {
+			if c.Counters["glued-nontrivial-value-symbol:"+sym] == 0 {
+				c.Broken("vacuity: no glued --flag=value case whose value contains %q changed the output", sym)
+			}
+		}
 		finishFlags(c, res3)
 		nd += int64(vf.SetSize(res3, "spellings"))
 		wall["flags"] = time.Since(t0).Seconds()
